@@ -371,7 +371,7 @@ def subject_cases(prog):
                 kind = "undef"
         base = plant(prog, rpath, ridx, kind)
         r0 = ref_run(base)
-        if r0[0] != "exc" or r0[1] not in ("Boom", "NameError"):
+        if r0[0] != "exc" or r0[1] not in ("Boom", "NameError", "RuntimeException"):
             continue  # raise point not executed (dead branch / uncalled def)
         unhandled.append((rpath, ridx, kind, ranc))
         catching = []
